@@ -504,3 +504,62 @@ def _load(target: ast.AST) -> ast.AST:
     if hasattr(t, "ctx"):
         t.ctx = ast.Load()
     return t
+
+
+class SymArray:
+    """A one-dimensional array of symbolic entries with numpy's entry-wise arithmetic, integer/slice indexing and slice
+    assignment — enough to interpret small array kernels (difference weights, cumulative sums) exactly for a given length."""
+
+    def __init__(self, items):
+        self.items = list(items)
+
+    @property
+    def size(self):
+        return len(self.items)
+
+    @property
+    def shape(self):
+        return (len(self.items),)
+
+    def __len__(self):
+        return len(self.items)
+
+    def __iter__(self):
+        return iter(self.items)
+
+    def __getitem__(self, k):
+        if isinstance(k, slice):
+            return SymArray(self.items[k])
+        return self.items[k]
+
+    def __setitem__(self, k, v):
+        if isinstance(k, slice):
+            idx = list(range(len(self.items)))[k]
+            vals = list(v) if isinstance(v, (SymArray, list, tuple)) else [v] * len(idx)
+            if len(vals) != len(idx):
+                raise ValueError(f"could not broadcast input array from shape ({len(vals)},) into shape ({len(idx)},)")
+            for i, x in zip(idx, vals):
+                self.items[i] = x
+        else:
+            self.items[k] = v
+
+    def _bin(self, other, f):
+        if isinstance(other, (SymArray, list, tuple)):
+            o = list(other)
+            if len(o) != len(self.items):
+                raise ValueError(f"operands could not be broadcast together with shapes ({len(self.items)},) ({len(o)},)")
+            return SymArray(f(a, b) for a, b in zip(self.items, o))
+        return SymArray(f(a, other) for a in self.items)
+
+    def __add__(self, o): return self._bin(o, lambda a, b: a + b)
+    def __radd__(self, o): return self._bin(o, lambda a, b: b + a)
+    def __sub__(self, o): return self._bin(o, lambda a, b: a - b)
+    def __rsub__(self, o): return self._bin(o, lambda a, b: b - a)
+    def __mul__(self, o): return self._bin(o, lambda a, b: a * b)
+    def __rmul__(self, o): return self._bin(o, lambda a, b: b * a)
+    def __truediv__(self, o): return self._bin(o, lambda a, b: a / b)
+    def __rtruediv__(self, o): return self._bin(o, lambda a, b: b / a)
+    def __pow__(self, o): return self._bin(o, lambda a, b: a ** b)
+    def __neg__(self): return SymArray(-a for a in self.items)
+    def copy(self): return SymArray(self.items)
+    def astype(self, *_a, **_k): return SymArray(self.items)
